@@ -78,6 +78,6 @@ Definition ignore_config (i : nat) : config :=
          c_differ_default := c_differ_default nb_config; c_atomic := c_atomic nb_config;
          c_split_mimes := c_split_mimes nb_config; c_generic_pred := c_generic_pred nb_config;
          c_dict_strict := c_dict_strict nb_config; c_mime_strict := c_mime_strict nb_config;
-         c_conj_cfg := c_conj_cfg nb_config |}
+         c_conj_cfg := c_conj_cfg nb_config; c_mime_guard := c_mime_guard nb_config |}
   | None => nb_config
   end.
